@@ -155,9 +155,27 @@ func (ex *Exec) symSliceElem(st *State, sv *SymSliceV, idx *Term) Value {
 	pos := 0
 	return ex.buildValue(sv.Elem, leaves, &pos, st)
 }
+// symSliceSlice: s[lo:hi] of a slice of unknown length: bounds are obligations, the length is
+// exact, the contents of the result are left unconstrained (a sound weakening).
 func (ex *Exec) symSliceSlice(st *State, sv *SymSliceV, e *ast.SliceExpr) Value {
-	unsupported("slice of symbolic slice")
-	return nil
+	ts := ex.ts
+	lo := ts.BV(0, 64)
+	if e.Low != nil {
+		lo = ex.indexTerm(e.Low, st)
+	}
+	hi := sv.Len
+	if e.High != nil {
+		hi = ex.indexTerm(e.High, st)
+	}
+	if e.Max != nil {
+		unsupported("3-index slice of symbolic slice")
+	}
+	ok := ts.And(ts.BVCmp(OpBVSle, ts.BV(0, 64), lo), ts.And(ts.BVCmp(OpBVSle, lo, hi), ts.BVCmp(OpBVSle, hi, sv.Len)))
+	ex.assert(st, "safety.slice", ok, e.Pos(), "slice bounds in range")
+	r := ex.newSymSlice(st, "subslice", sv.Elem)
+	ex.assume(st, ts.Eq(r.Len, ts.BVBin(OpBVSub, hi, lo)))
+	ex.assumptions["contents of s[lo:hi] for s of unknown length are not modelled (only the length)"] = true
+	return r
 }
 func (ex *Exec) makeSymSlice(st *State, t *types.Slice, n *Term, p token.Pos) Value {
 	unsupported("make with symbolic length at %s", ex.pos(p))
@@ -176,9 +194,23 @@ func (ex *Exec) symAppend(st *State, b *SymSliceV, add []Value, p token.Pos) Val
 	ex.assumptions["slice lengths stay below 2^63 (append never overflows the length)"] = true
 	return r
 }
+// symAppendSlice: append(base, s...) for a slice s of unknown length: the result has the summed
+// length; its contents are left unconstrained (a sound weakening).
 func (ex *Exec) symAppendSlice(st *State, base Value, s *SymSliceV, t *types.Slice, p token.Pos) Value {
-	unsupported("append of symbolic slice")
-	return nil
+	b := ex.toSym(st, base, t.Elem())
+	r := ex.newSymSlice(st, "appended", t.Elem())
+	ex.assume(st, ex.ts.Eq(r.Len, ex.ts.BVBin(OpBVAdd, b.Len, s.Len)))
+	if b.Len.Op == OpConst {
+		// the prefix of known length is copied element by element
+		for i := uint64(0); i < b.Len.BV && i < 16; i++ {
+			idx := ex.ts.BV(i, 64)
+			for k := range r.Arrs {
+				ex.assume(st, ex.ts.Eq(ex.ts.Select(r.Arrs[k], idx), ex.ts.Select(b.Arrs[k], idx)))
+			}
+		}
+	}
+	ex.assumptions["append(a, b...) with b of unknown length: length and the elements of a are modelled, the copied elements of b are not"] = true
+	return r
 }
 func (ex *Exec) havocSymSlice(st *State, prefix string, t *types.Slice) Value {
 	return ex.newSymSlice(st, prefix, t.Elem())
@@ -349,7 +381,9 @@ func (ex *Exec) execLoopInv(s ast.Stmt, cond ast.Expr, body *ast.BlockStmt, post
 			return true
 		})
 	}
-	head := st.fork(st.pc)
+	// Locations the loop may change: syntactically assigned variables plus everything a dry
+	// run of the body writes (pointees changed through calls, heap arrays, ghost state).
+	hset := map[*Loc]types.Type{}
 	for o := range assigned {
 		v, ok := o.(*types.Var)
 		if !ok {
@@ -359,17 +393,20 @@ func (ex *Exec) execLoopInv(s ast.Stmt, cond ast.Expr, body *ast.BlockStmt, post
 		if l == nil {
 			continue // declared inside the body
 		}
-		if _, present := head.store[l]; !present {
+		if _, present := st.store[l]; !present {
 			continue
 		}
-		head.store[l] = ex.havocLike(v.Name()+"@loop", ex.load(head, l), v.Type(), head)
+		if _, isPtr := st.store[l].(*PtrV); isPtr {
+			unsupported("loop assigns the pointer variable %s (only heap-class references may be reassigned in a loop with an invariant)", v.Name())
+		}
+		hset[l] = v.Type()
 	}
 	for _, h := range havoc {
 		found := false
 		for env := ex.cur().env; env != nil && !found; env = env.parent {
 			for o, l := range env.vars {
 				if o.Name() == h {
-					head.store[l] = ex.havocLike(h+"@loop", ex.load(head, l), o.Type(), head)
+					hset[l] = o.Type()
 					found = true
 				}
 			}
@@ -378,6 +415,83 @@ func (ex *Exec) execLoopInv(s ast.Stmt, cond ast.Expr, body *ast.BlockStmt, post
 			unsupported("havoc: no variable %s in scope", h)
 		}
 	}
+	// tmpl[l]: the entry value of l with a mark at every leaf the body may change
+	tmpl := map[*Loc]Value{}
+	for l := range hset {
+		tmpl[l] = &havocMark{}
+	}
+	mkHead := func() *State {
+		h := st.fork(st.pc)
+		for l, t := range hset {
+			h.store[l] = ex.instantiateMarks(tmpl[l], ex.load(h, l), t, l.Name+"@loop", h)
+		}
+		return h
+	}
+	for round := 0; round < 4; round++ {
+		probe := mkHead()
+		before := map[*Loc]Value{}
+		for l, v := range probe.store {
+			before[l] = v
+		}
+		nf, no := len(ex.facts), len(ex.obls)
+		saveCount := map[string]int{}
+		for k, v := range ex.oblCount {
+			saveCount[k] = v
+		}
+		ex.suppress++
+		ps := probe.fork(probe.pc)
+		if cond != nil {
+			ex.evalBool(cond, ps)
+		}
+		if pre != nil {
+			ex.pushScope()
+			pre(ps)
+		}
+		fl := ex.execBlock(body.List, ps)
+		if post != nil && fl.Normal != nil {
+			ex.execStmt(post, fl.Normal)
+		}
+		if pre != nil {
+			ex.popScope()
+		}
+		ex.suppress--
+		ex.facts, ex.obls, ex.oblCount = ex.facts[:nf], ex.obls[:no], saveCount
+		grew := false
+		for _, s2 := range ex.flowStates(fl) {
+			for l, v := range s2.store {
+				old, had := before[l]
+				if !had {
+					old, had = ex.base[l]
+				}
+				if !had || old == v {
+					continue // new location of the body, or unchanged
+				}
+				cur, in := tmpl[l]
+				if !in {
+					cur = old
+					if ov, have := st.store[l]; have {
+						cur = ov
+					} else if bv, have := ex.base[l]; have {
+						cur = bv
+					}
+					hset[l] = l.Typ
+				}
+				orig := cur
+				if !in {
+					orig = cur
+				}
+				nt := markChanges(cur, ex.entryOf(st, l), v)
+				if !in || !sameMarks(nt, orig) {
+					tmpl[l] = nt
+					grew = true
+				}
+			}
+		}
+		if !grew {
+			break
+		}
+	}
+	head := mkHead()
 	// assume invariant at loop head
 	for _, e := range exprs {
 		ex.suppress++
@@ -401,7 +515,8 @@ func (ex *Exec) execLoopInv(s ast.Stmt, cond ast.Expr, body *ast.BlockStmt, post
 			ex.suppress++
 			g := ex.evalBool(e, bs)
 			ex.suppress--
-			ex.assume(bs, g)
+			// an instance of a proved (or assumed) lemma is a fact on every path
+			ex.facts = append(ex.facts, g)
 		}
 	}
 	bodySt := head
@@ -422,7 +537,11 @@ func (ex *Exec) execLoopInv(s ast.Stmt, cond ast.Expr, body *ast.BlockStmt, post
 		next = ex.execStmt(post, next).Normal
 	}
 	if next != nil {
+		ex.cover(next, "loop."+itoa(ex.prog.LoopOrd[s])+".body-end")
 		evalInv(next, "loop.preserved")
+	}
+	if exit != nil {
+		ex.cover(exit, "loop."+itoa(ex.prog.LoopOrd[s])+".exit")
 	}
 	if exit != nil && exit.pc.IsFalse() {
 		exit = nil
@@ -455,8 +574,30 @@ func (ex *Exec) havocLike(prefix string, v Value, t types.Type, st *State) Value
 	switch x := v.(type) {
 	case *Term:
 		return ex.ts.Fresh(prefix, x.Sort)
-	case *StructV, *ArrayV:
+	case *StructV:
+		// field by field, so that pointer fields keep their targets
+		if stt, ok := t.Underlying().(*types.Struct); ok && stt.NumFields() == len(x.Fields) {
+			r := &StructV{Fields: make([]Value, len(x.Fields))}
+			for i := range x.Fields {
+				r.Fields[i] = ex.havocLike(prefix+"."+stt.Field(i).Name(), x.Fields[i], stt.Field(i).Type(), st)
+			}
+			return r
+		}
 		return ex.havocValue(prefix, t, st)
+	case *ArrayV:
+		return ex.havocValue(prefix, t, st)
+	case *FuncV:
+		if x.AbstractID != nil {
+			return &FuncV{AbstractID: ex.ts.Fresh(prefix, BVSort(64)), AbsType: x.AbsType}
+		}
+	case *OpaqueV:
+		return &OpaqueV{What: x.What, IsNil: ex.ts.Fresh(prefix+".isnil", BoolSort)}
+	case *OpaqueTokV:
+		return &OpaqueTokV{ID: ex.ts.Fresh(prefix, BVSort(64))}
+	case *PtrV:
+		return x // the pointer itself is not reassigned by the body (assignments are havocked separately)
+	case *AbstractIfaceV:
+		return &AbstractIfaceV{ID: ex.ts.Fresh(prefix, BVSort(64)), Typ: x.Typ}
 	case *SliceV, *SymSliceV:
 		if sl, ok := t.Underlying().(*types.Slice); ok {
 			return ex.newSymSlice(st, prefix, sl.Elem())
@@ -470,4 +611,83 @@ func (ex *Exec) havocLike(prefix string, v Value, t types.Type, st *State) Value
 	}
 	unsupported("havoc of %T (%s)", v, prefix)
 	return nil
+}
+
+// havocMark marks a leaf (or a whole sub-value) that a loop body may change.
+type havocMark struct{}
+
+func (ex *Exec) entryOf(st *State, l *Loc) Value {
+	if v, ok := st.store[l]; ok {
+		return v
+	}
+	return ex.base[l]
+}
+
+// markChanges refines template t (entry value with marks): wherever the observed value nv
+// differs from the entry value ev, the template gets a mark.
+func markChanges(t Value, ev Value, nv Value) Value {
+	if _, isMark := t.(*havocMark); isMark {
+		return t
+	}
+	if ev == nv {
+		return t
+	}
+	switch e := ev.(type) {
+	case *StructV:
+		n, ok1 := nv.(*StructV)
+		tt, ok2 := t.(*StructV)
+		if ok1 && ok2 && len(n.Fields) == len(e.Fields) {
+			r := &StructV{Fields: make([]Value, len(e.Fields))}
+			for i := range e.Fields {
+				r.Fields[i] = markChanges(tt.Fields[i], e.Fields[i], n.Fields[i])
+			}
+			return r
+		}
+	case *PtrV:
+		if n, ok := nv.(*PtrV); ok && ptrSame(e, n) && e.NilIf == n.NilIf {
+			return t
+		}
+	case *SliceV:
+		if n, ok := nv.(*SliceV); ok && *e == *n {
+			return t
+		}
+	}
+	return &havocMark{}
+}
+
+func sameMarks(a, b Value) bool {
+	_, ma := a.(*havocMark)
+	_, mb := b.(*havocMark)
+	if ma || mb {
+		return ma && mb
+	}
+	sa, ok1 := a.(*StructV)
+	sb, ok2 := b.(*StructV)
+	if ok1 && ok2 && len(sa.Fields) == len(sb.Fields) {
+		for i := range sa.Fields {
+			if !sameMarks(sa.Fields[i], sb.Fields[i]) {
+				return false
+			}
+		}
+	}
+	return true
+}
+
+// instantiateMarks builds the loop-head value: arbitrary at marked places, the entry value elsewhere.
+func (ex *Exec) instantiateMarks(t Value, entry Value, typ types.Type, prefix string, st *State) Value {
+	if _, isMark := t.(*havocMark); isMark {
+		return ex.havocLike(prefix, entry, typ, st)
+	}
+	if tt, ok := t.(*StructV); ok {
+		if e, ok := entry.(*StructV); ok && typ != nil {
+			if stt, ok := typ.Underlying().(*types.Struct); ok && stt.NumFields() == len(e.Fields) {
+				r := &StructV{Fields: make([]Value, len(e.Fields))}
+				for i := range e.Fields {
+					r.Fields[i] = ex.instantiateMarks(tt.Fields[i], e.Fields[i], stt.Field(i).Type(), prefix+"."+stt.Field(i).Name(), st)
+				}
+				return r
+			}
+		}
+	}
+	return entry
 }
